@@ -859,3 +859,103 @@ silent('r4-handle-closed-by-closing', ['C12', 'C13'],
        (CACHE, 'PickleCache.save_result', "        with data_file:\n            pickle.dump(result, data_file, protocol=self.pickle_protocol)",
         "        with contextlib.closing(data_file):\n            pickle.dump(result, data_file, protocol=self.pickle_protocol)"),
        (CACHE, None, "import json\n", "import contextlib\nimport json\n"))
+
+
+# -- object-level forms (fourth refactoring round): sound form silent, broken form still reported ---------------------------
+_CM_OK = '''class _DiscardEntryOnFailure:
+    def __init__(self, storage, task):
+        self._storage = storage
+        self._task = task
+
+    def __enter__(self):
+        return None
+
+    def __exit__(self, exc_type, exc_value, traceback):
+        if exc_type is not None:
+            self._storage.delete(self._task.cache_key)
+        return False
+
+
+class BaseCache(Cache):'''
+_SAVE_WITH_CM = """        with _DiscardEntryOnFailure(storage, task):
+            metadata_file = storage.file_handle(task.cache_key, self.METADATA_FILENAME, mode='w')
+            with metadata_file:
+                json.dump(metadata, metadata_file, indent=2)
+            self.save_result(storage, task, task_result.value)"""
+silent('obj-rollback-context-manager', ['C12', 'C13', 'C14', 'C08'],
+       (CACHE, None, "class BaseCache(Cache):", _CM_OK),
+       (CACHE, 'BaseCache.save', _SAVE_TRY, _SAVE_WITH_CM))
+fire('obj-rollback-context-manager-swallows', ['C12', 'C13'], ['C12.ROLLBACK-COVER', 'C08.WHO-WRITES-STORAGE', 'C10.SUCCESS-ONLY-STORES'],
+     (CACHE, None, "class BaseCache(Cache):", _CM_OK.replace("        return False", "        return True")),
+     (CACHE, 'BaseCache.save', _SAVE_TRY, _SAVE_WITH_CM),
+     note='__exit__ returning True swallows the failure: the manager is not desugared and the save has no recognisable rollback')
+fire('obj-rollback-context-manager-only-on-success', ['C12', 'C13'], 'C12.ROLLBACK-COVER',
+     (CACHE, None, "class BaseCache(Cache):", _CM_OK.replace("if exc_type is not None:", "if exc_type is None:")),
+     (CACHE, 'BaseCache.save', _SAVE_TRY, _SAVE_WITH_CM))
+
+_HOLDER = '''class _ActiveTasks:
+    def __init__(self):
+        self._type_to_tasks = defaultdict(set)
+
+    def add(self, task):
+        self._type_to_tasks[type(task)].add(task)
+
+    def remove(self, task):
+        self._type_to_tasks[type(task)].remove(task)
+
+    def type_counts(self):
+        return Counter({task_type: len(tasks) for task_type, tasks in self._type_to_tasks.items()})
+
+
+class TaskState:'''
+_HOLDER_EDITS = [
+    (LAB, None, "class TaskState:", _HOLDER),
+    (LAB, 'TaskState.__init__', "        self.type_to_active_tasks: dict[Type[Task], Set[Task]] = defaultdict(set)", "        self._active = _ActiveTasks()"),
+    (LAB, 'TaskState.start_task', "        self.type_to_active_tasks[type(task)].add(task)", "        self._active.add(task)"),
+    (LAB, 'TaskState.complete_task', "        self.type_to_active_tasks[type(task)].remove(task)", "        self._active.remove(task)"),
+]
+_COUNTS_OLD = """        task_type_counts = Counter({
+            task_type: len(active_tasks)
+            for task_type, active_tasks in self.type_to_active_tasks.items()
+        })"""
+silent('obj-active-tasks-holder-class', ['C04', 'C05'],
+       *_HOLDER_EDITS, (LAB, 'TaskState.get_ready_tasks', _COUNTS_OLD, "        task_type_counts = self._active.type_counts()"))
+fire('obj-active-tasks-holder-remove-noop', ['C04', 'C05'], 'C04.ACTIVE-BOOK',
+     (LAB, None, "class TaskState:", _HOLDER.replace("        self._type_to_tasks[type(task)].remove(task)", "        pass")),
+     *_HOLDER_EDITS[1:], (LAB, 'TaskState.get_ready_tasks', _COUNTS_OLD, "        task_type_counts = self._active.type_counts()"),
+     note='the wrapper forgets to remove finished tasks: the per-type count only grows')
+
+_CONSUMER_CLS = '''class _ResultQueueConsumer:
+    def __init__(self, executor, timeout_seconds):
+        self._executor = executor
+        self._timeout_seconds = timeout_seconds
+
+    def __call__(self):
+        executor = self._executor
+        inner_timeout_seconds = self._timeout_seconds
+        while True:
+            try:
+                future_id, result_or_ex = executor._result_queue.get(True, timeout=inner_timeout_seconds)
+            except Empty:
+                break
+            inner_timeout_seconds = 0
+            future, _ = executor._running_id_to_future_and_process[future_id]
+            del executor._running_id_to_future_and_process[future_id]
+            if not future.done:
+                if isinstance(result_or_ex, BaseException):
+                    future.set_exception(result_or_ex)
+                else:
+                    future.set_result(result_or_ex)
+
+
+class ProcessExecutor:'''
+_CLOSURE_TEXT = "        def _consume():\n            inner_timeout_seconds = timeout_seconds\n            while True:\n                try:\n                    future_id, result_or_ex = self._result_queue.get(True, timeout=inner_timeout_seconds)\n                except Empty:\n                    break\n\n                # Don't wait for the timeout on subsequent calls to\n                # self._result_queue.get()\n                inner_timeout_seconds = 0\n\n                future, _ = self._running_id_to_future_and_process[future_id]\n                del self._running_id_to_future_and_process[future_id]\n                if not future.done:\n                    if isinstance(result_or_ex, BaseException):\n                        future.set_exception(result_or_ex)\n                    else:\n                        future.set_result(result_or_ex)\n\n"
+silent('obj-consumer-callable-class', ['C11', 'C14', 'C01'],
+       (PROC, None, "class ProcessExecutor:", _CONSUMER_CLS),
+       (PROC, 'ProcessExecutor._consume_result_queue', _CLOSURE_TEXT, ""),
+       (PROC, 'ProcessExecutor._consume_result_queue', "consumer_thread = Thread(target=_consume)", "consumer_thread = Thread(target=_ResultQueueConsumer(self, timeout_seconds))"))
+fire('obj-consumer-callable-class-drops-entry-late', ['C11'], 'C11.FUTURE-PAIRING',
+     (PROC, None, "class ProcessExecutor:", _CONSUMER_CLS.replace("            del executor._running_id_to_future_and_process[future_id]\n", "")),
+     (PROC, 'ProcessExecutor._consume_result_queue', _CLOSURE_TEXT, ""),
+     (PROC, 'ProcessExecutor._consume_result_queue', "consumer_thread = Thread(target=_consume)", "consumer_thread = Thread(target=_ResultQueueConsumer(self, timeout_seconds))"),
+     note='the class-based consumer never frees the worker slot of a finished future')
